@@ -11,7 +11,7 @@ def run(tier: str, seed: int) -> Report:
     rep.exhaustive = False
     rep.rule = (
         "evaluations = (pipeline, data set, back end, input variant): chains of %s public operators from cbc.common.gen_pipelines "
-        "(all operator pairs; reduced triples at thorough; two-table DAGs) x data sets whose table d has >= 2 rows (<= %d rows) x back ends "
+        "(quick: all single operators and every second operator pair, the half chosen by VERIF_SEED; thorough: all pairs and every second triple of the reduced grid; two-table DAGs) x data sets whose table d has >= 2 rows (<= %d rows) x back ends "
         "Pandas, Polars (when it returns), SQLite x variants: ALL permutations of the rows of d, reversal and rotation of every other "
         "input table, and for Pandas/SQLite three re-indexings of all inputs (shuffled ints, string labels, duplicate labels). "
         "NONTRIVIAL = a variant evaluation that returned and was compared with the same back end's result on the original input "
